@@ -9,8 +9,8 @@ CONSTANTS
   MaxArgs = 0
   Fns = {}
   Rich = FALSE
-  TextLen = 4
-  Chars = {97, 95, 49, 45, 46, 112, 116, 34, 92, 117, 123, 125, 40, 41, 91, 93, 61, 44, 35, 32, 10, 233}
+  TextLen = 5
+  Chars = {97, 49, 45, 46, 112, 116, 34, 92, 40, 41, 91, 93, 61, 44, 35, 10}
   IntParts = {}
   Sample = 1
 INVARIANTS InvLexTotal InvRelex InvReadRender InvCommentsAreBlank
